@@ -152,6 +152,56 @@ def r3_linkage_and_temperature(idx, r):
     r.require("self._expansionFactors.get(c, 1.0)" in norm(ge.node), "getExpansionFactor:default-1", ge, msg="components without a prescribed growth keep their height (factor 1)")
 
 
+AXM = "armi.reactor.converters.axialExpansionChanger"
+
+
+def r4_designated_target(idx, r):
+    """'moves each block boundary with its DESIGNATED target component': when a block names its target
+    (b.p.axialExpTargetComponent), that component is used - the test for it comes before every flag-based default."""
+    f = idx.method(AXM + ".expansionData.ExpansionData", "_setTargetComponents")
+    if f is None:
+        raise AnchorMissing("ExpansionData._setTargetComponents")
+    env = single_assign_env(f.node)
+    calls = [c for c in iter_calls(f.node) if call_attr(c) == "_setExpansionTarget" and len(c.args) >= 2
+             and "axialExpTargetComponent" in norm(propagate(c.args[1], env))]
+    if not calls:
+        raise AnchorMissing("_setTargetComponents: use of b.p.axialExpTargetComponent")
+    for c in calls:
+        conds = [(norm(t), p) for t, p in path_conditions(f.node, c)]
+        others = [(t, p) for t, p in conds if "axialExpTargetComponent" not in t]
+        r.require(not others and any(p for t, p in conds if "axialExpTargetComponent" in t), "designated-target-first", f, node=c,
+                  msg=f"the designated target is only used when {others} - a flag-based default (e.g. clad for plenum blocks) is consulted first and overrides what the block designates")
+
+
+def r5_fresh_state_per_assembly(idx, r):
+    """Prescribed expansions are applied through one changer object, assembly after assembly and step after step:
+    setAssembly rebuilds the axial linkage and the expansion data on EVERY call, or factors of an earlier step survive
+    for components the new step does not name."""
+    f = idx.method(AXM + ".axialExpansionChanger.AxialExpansionChanger", "setAssembly")
+    if f is None:
+        raise AnchorMissing("AxialExpansionChanger.setAssembly")
+
+    def ev(n):
+        out = []
+        if isinstance(n, ast.Assign):
+            for t in n.targets:
+                if norm(t) == "self.linked" and isinstance(n.value, ast.Call) and (dotted(n.value.func) or "").endswith("AssemblyAxialLinkage"):
+                    out.append("linked")
+                if norm(t) == "self.expansionData" and isinstance(n.value, ast.Call) and (dotted(n.value.func) or "").endswith("ExpansionData"):
+                    out.append("data")
+        return out
+    fl = Flow(f.node, ev).run()
+    for fact, what in (("linked", "the axial linkage"), ("data", "the expansion data")):
+        bad = [e for e in fl.normal_exits() if e.state.get(fact, (0, 0))[0] < 1]
+        r.require(not bad, f"setAssembly:rebuilds-{fact}", f, msg=f"a path through setAssembly keeps {what} of a previous call: expansion factors set for an earlier step stay in effect "
+                  "for components the next step does not name, so an expansion followed by its inverse does not restore the assembly")
+
+
+def r6_none_tests(idx, r):
+    from .c03 import r8_none_tests
+    r8_none_tests(idx, r, modules=("armi.reactor.components.component", AXM), floor=5)
+
+
 def run(idx, chk):
     chk.explanation = (
         "C12: axiallyExpandAssembly typed with a role generator for the growth fraction (height x growth, densities x growth^-1); block bottoms on the "
@@ -165,3 +215,7 @@ def run(idx, chk):
                  necessary="assembly height unchanged, blocks contiguous with positive height, grid bounds equal the elevations")
     chk.run_rule("R12.3", "linkage uses cold diameters consistently; reference temperatures refreshed on every update; growth factors validated", lambda r: r3_linkage_and_temperature(idx, r), floor=10,
                  necessary="linked components stay stacked; expanding then applying the inverse restores heights")
+    chk.run_rule("R12.4", "a block's designated target component is used before any flag-based default", lambda r: r4_designated_target(idx, r), floor=1, necessary="'moves each block boundary with its designated target component'")
+    chk.run_rule("R12.5", "setAssembly rebuilds linkage and expansion data on every call", lambda r: r5_fresh_state_per_assembly(idx, r), floor=2, necessary="'expanding and then applying the inverse change restores heights, densities and masses'")
+    chk.run_rule("R12.6", "optional temperatures of the expansion-factor functions are compared with None, never evaluated for truth", lambda r: r6_none_tests(idx, r), floor=5,
+                 necessary="'by any temperature field': a reference temperature of exactly 0 C is a temperature")
